@@ -105,3 +105,17 @@ Proof. exact list_experiment_names_current_code_refuted. Qed.
 Example C10_experiment_names_repaired_example :
   parse_list true [80] [[35;80;50;10]; [97;46;98;97;109;10]; [35;65;10]; [120;49;46;98;97;109;10]; [35;65;10]; [120;50;46;98;97;109;10]] = Raises 1.
 Proof. exact list_experiment_names_repaired_on_the_witness. Qed.
+
+(* ---- tie to the source.  gen/Extra.v is regenerated from src/dataset_processor.py on every check (tools/translate_extra.py):
+        PolyAUsageStrategies and set_polya_requirement_strategy.  The model's set_strategy is the source's function under the name
+        correspondence pus_of (OrchestrationBridgeDefs.v), and the three strategies of the model are exactly the members of the enum.
+        The library with the proof is loaded inside the proof, so that an edit of the source is reported against this theorem. *)
+From IQ.gen Require Extra.
+From IQ Require Import OrchestrationBridgeDefs.
+Theorem C10_polya_strategy_is_the_source :
+  (forall flag st, set_strategy flag st = Extra.py_set_polya_requirement_strategy flag (pus_of st)) /\
+  map pus_of [PAuto; PNever; PAlways] = Extra.PUS_all /\ (forall x : Extra.PUS, exists st, pus_of st = x).
+Proof.
+From IQ Require OrchestrationBridge.
+exact OrchestrationBridge.polya_strategy_is_the_source. Qed.
+Print Assumptions C10_polya_strategy_is_the_source.
